@@ -1,4 +1,4 @@
-package main
+package apiback
 
 import (
 	"context"
@@ -44,7 +44,17 @@ type MonBackend struct {
 	mu     sync.Mutex
 	Calls  []Call
 	Decide func(c Call) error // outcome of write calls (nil = success)
+	// Stores: when set for a ledger name, read methods are served by the real *ledgerstore.Store (on a recording driver)
+	Stores map[string]*ledgerstore.Store
+	// LastQuery: the query object the handler built for the last list call (C17 cursor round trips)
 	nextTx int64
+}
+
+func (b *MonBackend) store(name string) *ledgerstore.Store {
+	if b.Stores == nil {
+		return nil
+	}
+	return b.Stores[name]
 }
 
 func (b *MonBackend) record(c Call) {
@@ -91,19 +101,31 @@ func (l *monLedger) decide(c Call) error {
 
 func (l *monLedger) GetAccountWithVolumes(ctx context.Context, q ledgerstore.GetAccountQuery) (*ledger.ExpandedAccount, error) {
 	l.b.record(Call{Ledger: l.name, Method: "GetAccountWithVolumes"})
+	if s := l.b.store(l.name); s != nil {
+		return s.GetAccountWithVolumes(ctx, q)
+	}
 	a := ledger.NewExpandedAccount(q.Addr)
 	return &a, nil
 }
 func (l *monLedger) GetAccountsWithVolumes(ctx context.Context, q ledgerstore.GetAccountsQuery) (*sharedapi.Cursor[ledger.ExpandedAccount], error) {
 	l.b.record(Call{Ledger: l.name, Method: "GetAccountsWithVolumes"})
+	if s := l.b.store(l.name); s != nil {
+		return s.GetAccountsWithVolumes(ctx, q)
+	}
 	return &sharedapi.Cursor[ledger.ExpandedAccount]{}, nil
 }
 func (l *monLedger) CountAccounts(ctx context.Context, q ledgerstore.GetAccountsQuery) (int, error) {
 	l.b.record(Call{Ledger: l.name, Method: "CountAccounts"})
+	if s := l.b.store(l.name); s != nil {
+		return s.CountAccounts(ctx, q)
+	}
 	return 0, nil
 }
 func (l *monLedger) GetAggregatedBalances(ctx context.Context, q ledgerstore.GetAggregatedBalanceQuery) (ledger.BalancesByAssets, error) {
 	l.b.record(Call{Ledger: l.name, Method: "GetAggregatedBalances"})
+	if s := l.b.store(l.name); s != nil {
+		return s.GetAggregatedBalances(ctx, q)
+	}
 	return ledger.BalancesByAssets{}, nil
 }
 func (l *monLedger) GetMigrationsInfo(ctx context.Context) ([]migrations.Info, error) {
@@ -112,18 +134,30 @@ func (l *monLedger) GetMigrationsInfo(ctx context.Context) ([]migrations.Info, e
 func (l *monLedger) Stats(ctx context.Context) (engine.Stats, error) { return engine.Stats{}, nil }
 func (l *monLedger) GetLogs(ctx context.Context, q ledgerstore.GetLogsQuery) (*sharedapi.Cursor[ledger.ChainedLog], error) {
 	l.b.record(Call{Ledger: l.name, Method: "GetLogs"})
+	if s := l.b.store(l.name); s != nil {
+		return s.GetLogs(ctx, q)
+	}
 	return &sharedapi.Cursor[ledger.ChainedLog]{}, nil
 }
 func (l *monLedger) CountTransactions(ctx context.Context, q ledgerstore.GetTransactionsQuery) (int, error) {
 	l.b.record(Call{Ledger: l.name, Method: "CountTransactions"})
+	if s := l.b.store(l.name); s != nil {
+		return s.CountTransactions(ctx, q)
+	}
 	return 0, nil
 }
 func (l *monLedger) GetTransactions(ctx context.Context, q ledgerstore.GetTransactionsQuery) (*sharedapi.Cursor[ledger.ExpandedTransaction], error) {
 	l.b.record(Call{Ledger: l.name, Method: "GetTransactions"})
+	if s := l.b.store(l.name); s != nil {
+		return s.GetTransactions(ctx, q)
+	}
 	return &sharedapi.Cursor[ledger.ExpandedTransaction]{}, nil
 }
 func (l *monLedger) GetTransactionWithVolumes(ctx context.Context, q ledgerstore.GetTransactionQuery) (*ledger.ExpandedTransaction, error) {
 	l.b.record(Call{Ledger: l.name, Method: "GetTransactionWithVolumes"})
+	if s := l.b.store(l.name); s != nil {
+		return s.GetTransactionWithVolumes(ctx, q)
+	}
 	return &ledger.ExpandedTransaction{Transaction: *ledger.NewTransaction()}, nil
 }
 func (l *monLedger) IsDatabaseUpToDate(ctx context.Context) (bool, error) { return true, nil }
